@@ -5,9 +5,11 @@
 (*   res    the fields of the returned ds::HBox  (w h d s o num den)          *)
 (*   panic  [source file, message] instead of res when the call panicked      *)
 (* The event is accepted iff res is TeX's box: View(HPackD(items, m, t, {})). *)
-(* Otherwise the smallest set D of named deviations with                      *)
-(* res = View(HPackD(items, m, t, D)) names the finding (key = the names      *)
-(* joined with "+"); if there is none the key is "mismatch".                  *)
+(* Otherwise every set D of named deviations with                             *)
+(* res = View(HPackD(items, m, t, D)) is a candidate explanation (keys = the  *)
+(* names joined with "+", smallest set first); if there is none the key is    *)
+(* "mismatch".  The driver accepts an explanation only if every deviation in  *)
+(* it is an open known finding.                                               *)
 EXTENDS HPack, TLC, Json, IOUtils
 Rec == ndJsonDeserialize(IOEnv.TRACE)
 VARIABLE l
@@ -36,23 +38,49 @@ DevKeys == << DevSwap, DevPresence, DevOverfull,
               DevPresence \o "+" \o DevOverfull,
               DevSwap \o "+" \o DevPresence \o "+" \o DevOverfull >>
 
-RECURSIVE Explain(_, _)
-Explain(e, i) == IF i > Len(DevSets) THEN "mismatch"
-                 ELSE IF Agrees(e, HPackD(e.items, e.m, e.t, DevSets[i])) THEN DevKeys[i]
-                 ELSE Explain(e, i + 1)
+\* every candidate that reproduces the recorded outcome exactly (smallest first); <<>> = none
+Explain(e) == LET hit == { i \in 1..Len(DevSets) : Agrees(e, HPackD(e.items, e.m, e.t, DevSets[i])) }
+              IN [j \in 1..Cardinality(hit) |->
+                    DevKeys[CHOOSE i \in hit : Cardinality({k \in hit : k < i}) = j - 1]]
 
 Want(e) == LET b == HPackD(e.items, e.m, e.t, {}) IN
            IF b.ovf THEN [ovf |-> TRUE]
            ELSE [w |-> b.w, h |-> b.h, d |-> b.d, o |-> b.o, sign |-> b.sign, ratio |-> Reduce(b.rn, b.rd)]
 
+---------------------------------------------------------------------------
+(* Golden lines: events that carry `tex`, the box real TeX made of the same *)
+(* list (the repository's *_want.txt files).  Here the *specification* is   *)
+(* on trial: its box must be TeX's, the ratio to the precision TeX prints   *)
+(* (186: round(unity * g) as a scaled number, sign-less in the goldens).    *)
+RECURSIVE FracBits(_, _, _, _)     \* k more binary digits of b / d  (0 <= b < d < 2^30)
+FracBits(b, d, k, acc) ==
+  IF k = 0 THEN acc
+  ELSE IF 2 * b >= d THEN FracBits(2 * b - d, d, k - 1, 2 * acc + 1)
+       ELSE FracBits(2 * b, d, k - 1, 2 * acc)
+\* round(65536 * n / d) for n, d > 0 and n / d < 20000
+Unity(n, d) == (n \div d) * 65536 + (FracBits(n % d, d, 17, 0) + 1) \div 2
+
+GoldenOk(e, b) ==
+  /\ ~b.ovf
+  /\ e.tex.w = b.w /\ e.tex.h = b.h /\ e.tex.d = b.d /\ e.tex.o = b.o
+  /\ LET r == Reduce(b.rn, b.rd)
+         n == Abs(r[1])
+     IN IF n \div r[2] >= 20000 THEN TRUE
+        ELSE Abs(Unity(n, r[2]) - Abs(e.tex.num)) <= 1 /\ e.tex.den = 65536
+
 TInit == l = 1 /\ list = <<>> /\ tex = Scan0 /\ code = Code0 /\ out = Scanning
 TStep == /\ l <= Len(Rec) /\ l' = l + 1 /\ UNCHANGED vars
          /\ LET e == Rec[l] IN
+            IF "tex" \in DOMAIN e /\ ~GoldenOk(e, HPackD(e.items, e.m, e.t, {}))
+            THEN PrintT(<<"VERDICT", ToJson([l |-> l, key |-> "spec_disagrees_with_tex_golden", want |-> Want(e)])>>)
+            ELSE TRUE
+         /\ LET e == Rec[l] IN
             IF Agrees(e, HPackD(e.items, e.m, e.t, {})) THEN TRUE
-            ELSE LET key == Explain(e, 1) IN
-                 IF key = "mismatch"
-                 THEN PrintT(<<"VERDICT", ToJson([l |-> l, key |-> key, want |-> Want(e)])>>)
-                 ELSE PrintT(<<"VERDICT", ToJson([l |-> l, key |-> key])>>)
+            ELSE LET keys == Explain(e) IN
+                 IF keys = <<>>
+                 THEN PrintT(<<"VERDICT", ToJson([l |-> l, key |-> "mismatch", want |-> Want(e),
+                                                  with_all_recorded_deviations |-> View(HPackD(e.items, e.m, e.t, AllDevs))])>>)
+                 ELSE PrintT(<<"VERDICT", ToJson([l |-> l, key |-> keys[1], keys |-> keys])>>)
 TSpec == TInit /\ [][TStep]_<<vars, l>>
 Matched == TLCGet("stats").diameter - 1
 TraceAccepted == \/ Matched = Len(Rec)
